@@ -158,6 +158,11 @@ class SyncCrazyflie:
         self._is_link_open = False
         if self._disconnect_event:
             self._disconnect_event.set()
+        if self._connect_event:
+            # The link was lost or closed before the connection was set up,
+            # do not leave open_link() waiting
+            self._error_message = 'Disconnected from %s' % link_uri
+            self._connect_event.set()
 
     def _all_params_updated(self, link_uri):
         self._params_updated_event.set()
